@@ -254,8 +254,12 @@ where
                     if let Some(hm) = parse_fixed(&h, 4) {
                         let m = hm % 100;
                         let h = hm / 100;
-                        out.offset = Some(s * (h * 3600 + m * 60));
-                        Ok(())
+                        if m < 60 {
+                            out.offset = Some(s * (h * 3600 + m * 60));
+                            Ok(())
+                        } else {
+                            Err(format!("Expected offset minutes in range 0..=59, got {}", m))
+                        }
                     } else if let Ok(h) = i32::from_str_radix(&h, 10) {
                         take!(DateToken::Colon);
                         let m = take!(DateToken::Number(s, None), s);
